@@ -219,6 +219,42 @@ def dask_out_rule(ck, prog, rule):
     for label, ufunc, ins, outs, (cls, dt) in plans:
         z = mk(cls, dt, "zd")
         dask_out_plan(ck, prog, fi, ck.evaluator(), label, ufunc, ins(z), {"out": TupleV(outs(z))}, z, rule)
+    # a refused multi-output call leaves EVERY target as it was (all targets are checked before any is written)
+    z = mk("IntensitySignal", "float64", "zd")
+    t1 = mk("IntensitySignal", "float64", "t1")
+    t2 = make_signal(prog, "Signal", name="t2", dtype="int64", backend="dask", extra=(sp.Integer(2),))
+    ev = ck.evaluator()
+    d1, d2 = t1.attrs["_data"], t2.attrs["_data"]
+    label = "np.modf(z, out=(t1, t2)) on Dask data, t2 an int64 signal (float64 into int64 is refused)"
+    try:
+        ev.call(fi, [uf("modf", 1, 2), StrV("__call__"), z], {"out": TupleV([t1, t2])}, self_val=z)
+        ck.same(rule, fi.where, label, "the call is refused with TypeError", False, found="accepted", nontrivial=True)
+    except Raised as e:
+        untouched = t1.attrs["_data"] is d1 and t2.attrs["_data"] is d2
+        ck.same(rule, fi.where, label, "refused with TypeError, and no target has been written when the refusal is raised (check all, then write all)",
+                e.exc_name in ("TypeError", "UFuncTypeError") and untouched,
+                found=f"{e.exc_name}; first target {'untouched' if t1.attrs['_data'] is d1 else 'ALREADY OVERWRITTEN'}", nontrivial=True)
+    except Unsupported as e:
+        ck.unk(rule, fi.where, label, "evaluates", str(e)[:200])
+    # where= on a Dask-backed target: the kept elements are blended with the result AFTER it has the target's dtype (a blend of a
+    # uint64 result with int64 contents would be carried out in float64 and lose the low bits above 2**53)
+    si = make_signal(prog, "Signal", name="si", dtype="int64", backend="dask", extra=(sp.Integer(2),))
+    su = make_signal(prog, "Signal", name="su", dtype="uint64", backend="dask", extra=(sp.Integer(2),))
+    au = Num(sp.Symbol("AU"), kind="array", shape=(N, 2), tag="data", backend="numpy", dtype=ExtV("numpy.uint64"))
+    mask = Num(sp.Symbol("MASK"), kind="array", shape=(N, 2), tag="data", backend="numpy", dtype=ExtV("numpy.bool_"))
+    ev = ck.evaluator()
+    label = "np.add(su, AU, out=(si,), where=MASK) on Dask data: uint64 result into an int64 target"
+    try:
+        ev.call(fi, [uf("add", 2, 1), StrV("__call__"), su, au], {"out": TupleV([si]), "where": mask}, self_val=su)
+        wc = [t for t in ev.trace if t[0] == "where-call"]
+        blended = [t for t in wc if isinstance(t[2], Num)]
+        okw = bool(blended) and all(isinstance(t[2].dtype, ExtV) and t[2].dtype.dotted == "numpy.int64" for t in blended)
+        ck.same(rule, fi.where, label, "the result is cast to the target's dtype before it is blended with the target's old contents", okw,
+                found=str([repr(getattr(t[2], "dtype", None)) for t in wc]) or "no blend at all", nontrivial=True)
+    except Raised as e:
+        ck.same(rule, fi.where, label, "same_kind casting allows uint64 into int64: carried out", False, found=str(e)[:120], nontrivial=True)
+    except Unsupported as e:
+        ck.unk(rule, fi.where, label, "evaluates", str(e)[:200])
     ck.run.floor(rule, "out=/in-place forms with a Dask-backed signal as target", len(plans), 6)
 
 def dask_out_plan(ck, prog, fi, ev, label, ufunc, inputs, kw, selfv, rule="R2"):
